@@ -225,12 +225,44 @@ def run_case(case):
         s0 = w.snapshot()
         argv = [world.subst(o, w.R) for o in case['opts']] + ['--'] + \
             [p[2] for p in pre]
-        r = run.run(w, 'put', argv, stdin=b'y\ny\ny\n')
+        plan = None
+        if not fb and case.get('index', 0) % 8 == 3:
+            # nothing may hang on a later change of mode (a directory is made
+            # private by the mkdir itself): every chmod is refused.  (Without
+            # the copy fallback the unchanged trash-put never calls one.)
+            plan = {'pfaults': [{'ops': ['chmod', 'lchmod', 'fchmod'], 'errno': 1}]}
+            obs['runs_with_chmod_refused'] = 1
+        r = run.run(w, 'put', argv, stdin=b'y\ny\ny\n', plan=plan)
         s1 = w.snapshot()
         if r.timeout or r.audit_ok() is False:
             out['verdict'] = 'inconclusive'
             out['why'] = 'watchdog' if r.timeout else 'audit mismatch'
             return out
+        if case.get('index', 0) % 6 == 1:
+            # a kill right after a trash directory has been made: what exists
+            # is already private (nothing is left for a second step)
+            mk = [e['k'] for e in r.events if e.get('op') == 'mkdir' and
+                  e.get('c') == 'M' and e.get('r') == 'ok'][:4]
+            tdirs = set()
+            for p_ in pre:
+                for t_ in p_[3] or []:
+                    rt = w.rel(os.path.realpath(os.path.dirname(t_)) + '/' + os.path.basename(t_))
+                    if rt is not None:
+                        tdirs.update([rt, rt + '/files', rt + '/info'])
+            for k_ in mk:
+                with world.World(case) as w2:
+                    b0 = w2.snapshot()
+                    r2 = run.run(w2, 'put', [a_.replace(w.R, w2.R) for a_ in argv],
+                                 stdin=b'y\ny\ny\n', plan={'crash_before': k_ + 1})
+                    b1 = w2.snapshot()
+                    obs['kills_after_mkdir'] = obs.get('kills_after_mkdir', 0) + 1
+                    for q in b1:
+                        if q not in b0 and q in tdirs and b1[q][0] == 'd' and \
+                                (b1[q][1] & ~0o2000) != 0o700:
+                            out['violations'].append({
+                                'mechanism': 'created-dir-mode-%04o/after-kill' % b1[q][1],
+                                'detail': {'path': q, 'run': r2.brief(),
+                                           'killed_before_op': k_ + 1}})
         out['features'] += ['%s=%s' % kv for kv in sorted(case['factors'].items())]
         A = putcheck.analyze(s0, s1, [a['rel'] for a in case['args']])
         if r.out:
